@@ -156,6 +156,11 @@ VmResult vm_call_function(VmState *vm, uint32_t fn_idx, NanoValue *args, uint16_
  * On an FPGA, this would be implemented in RTL. */
 VmTrap vm_core_execute(VmState *vm);
 
+#ifdef NANOLANG_VERIF
+/* Verification seam (NULL by default): see vm.c, top of the dispatch loop. */
+extern int (*nl_verif_vm_step)(VmState *vm);
+#endif
+
 /* Get the return value (top of stack after execution) */
 NanoValue vm_get_result(VmState *vm);
 
